@@ -274,6 +274,71 @@ fn check_frame(rep: &mut Report, spec: &FSpec, full_caps: bool) {
     }
 }
 
+/// Several values written one after the other through ONE `BufferWriter`: each write either fits
+/// what is left (offset advances by exactly `write_size`, bytes equal the reference) or is refused
+/// and leaves offset and destination untouched — it never panics.
+fn check_buffer_sequence(rep: &mut Report, r: &mut Rng) {
+    let cap = *r.pick(&[0usize, 1, 3, 8, 16, 40, 100, 300]);
+    let mut buf = vec![SENT; cap];
+    let mut shadow = buf.clone();
+    let mut w = BufferWriter::new(&mut buf);
+    let mut pos = 0usize;
+    let n = r.usize(1, 8);
+    let mut log = vec![];
+    let mut bad: Vec<String> = vec![];
+    let (mut fitted, mut refused) = (0, 0);
+    for _ in 0..n {
+        let (reference, ok, what) = match r.below(3) {
+            0 => {
+                let l = *r.pick(&[0usize, 1, 5, 20, 62, 63, 64, 90]);
+                let spec = match r.below(3) {
+                    0 => FSpec::Data(r.bytes(l)),
+                    1 => FSpec::Headers(r.bytes(l)),
+                    _ => FSpec::Grease(h3::grease(r.below(1000)), r.bytes(l)),
+                };
+                let reference = spec.reference();
+                let ok = spec.build().write_to_buffer(&mut w).is_ok();
+                (reference, ok, format!("frame({})", spec.class()))
+            }
+            1 => {
+                let sid = *r.pick(&[0u64, 4, 64, 16384, 1 << 30, rv::MAX - 3]);
+                let ok = FSpec::Wt(sid).build().write_to_buffer(&mut w).is_ok();
+                (h3::wt_bidi_preamble(sid), ok, format!("wt-frame({sid})"))
+            }
+            _ => {
+                let sid = *r.pick(&[0u64, 4, 64, 16384, 1 << 30, rv::MAX - 3]);
+                let ok = StreamHeader::new_webtransport(session_id(sid)).write_to_buffer(&mut w).is_ok();
+                (h3::wt_uni_preamble(sid), ok, format!("stream-header({sid})"))
+            }
+        };
+        let fits = reference.len() <= cap - pos;
+        log.push(format!("{what}:{}B@{pos}/{cap}->{}", reference.len(), if ok { "Ok" } else { "Err" }));
+        if ok != fits {
+            bad.push(format!("{} when {} bytes were left", if ok { "accepted" } else { "refused" }, cap - pos));
+            break;
+        }
+        if ok {
+            shadow[pos..pos + reference.len()].copy_from_slice(&reference);
+            pos += reference.len();
+            fitted += 1;
+        } else {
+            refused += 1;
+        }
+        if w.offset() != pos {
+            bad.push(format!("offset {} after the write, expected {pos}", w.offset()));
+            break;
+        }
+    }
+    drop(w);
+    if bad.is_empty() && buf != shadow {
+        bad.push("destination differs from the concatenation of the accepted encodings (a refused write left bytes behind, or an accepted one wrote elsewhere)".into());
+    }
+    rep.eval(format!("buffer-sequence|cap={cap}|fitted={}|refused={}", fitted.min(3), refused.min(2)));
+    for b in bad {
+        viol(rep, "buffer-sequence", "reuse", format!("{b}: {}", log.join(" ; ")), J::obj([("sequence", J::s(log.join(" ; ")))]));
+    }
+}
+
 // ------------------------------------------------------------------ stream headers
 
 fn check_stream_header(rep: &mut Report, sid: Option<u64>) {
@@ -535,10 +600,22 @@ fn check_headers(rep: &mut Report, r: &mut Rng, idx: u64) {
             shape.push_str("static-full");
         }
         1 => {
-            let (n, _) = rq::STATIC_TABLE[(idx / 6) as usize % n_static];
+            let (n, v) = rq::STATIC_TABLE[(idx / 6) as usize % n_static];
             let l = boundary_len(r).min(600);
-            map.insert(n.to_string(), rand_string(r, l, idx / 7));
-            shape.push_str("static-name");
+            if r.chance(1, 3) {
+                // a name that equals a static-table name only after case folding is a different
+                // name for the codec: it must come back exactly as given
+                let name: String = match r.below(3) {
+                    0 => n.to_ascii_uppercase(),
+                    1 => n.chars().enumerate().map(|(i, c)| if i == 0 || n.as_bytes()[i - 1] == b'-' || n.as_bytes()[i - 1] == b':' { c.to_ascii_uppercase() } else { c }).collect(),
+                    _ => n.chars().rev().enumerate().map(|(i, c)| if i % 2 == 0 { c.to_ascii_uppercase() } else { c }).collect::<Vec<_>>().into_iter().rev().collect(),
+                };
+                map.insert(name, if r.chance(1, 2) { v.to_string() } else { rand_string(r, l, idx / 7) });
+                shape.push_str("static-name-other-case");
+            } else {
+                map.insert(n.to_string(), rand_string(r, l, idx / 7));
+                shape.push_str("static-name");
+            }
         }
         2 => {
             let nl = boundary_len(r).clamp(1, 300);
@@ -861,6 +938,14 @@ fn run_inner(a: &Args, shard: u64, shards: u64) -> Report {
     }
     if shard == 0 {
         check_stream_header(&mut rep, None);
+    }
+    let n_seq: u64 = if a.miri { 20 } else if a.thorough { 400_000 } else { 40_000 };
+    for j in 0..n_seq {
+        if mine(j) {
+            let mut r = Rng::derive(a.seed, 0xC14_B5E0 + (j << 16));
+            crate::note_case("buffer-sequence", &j.to_be_bytes());
+            check_buffer_sequence(&mut rep, &mut r);
+        }
     }
 
     // ---- settings, headers, datagrams
